@@ -338,6 +338,20 @@ def check_cpu(case: Dict[str, Any], obs: Dict[str, Any]) -> Tuple[List[Violation
         raise HarnessError(f"c18: twins differ before the experiment starts: {_diff_state(*obs['start'])}")
     reused = not case.get("fresh_runner", False)
     inter = case.get("interludes") or []
+    if obs.get("stall"):
+        # call-count watchdog of the Rust adapter: the host loop AsyncRuntimeRunner::run_instructions runs around its
+        # driver (run_for(slice) until the completion event) was rehearsed, bounded, on a scratch driver with the
+        # runner's clock and slice and did not get anywhere -- the crate's own unbounded loop was not entered
+        st = obs["stall"]
+        out.append(Violation("no-progress", "AsyncDriver::run_for in the host loop of AsyncRuntimeRunner "
+                             "(run_for(slice) until the task's completion event)",
+                             "run_for keeps returning MaxCycles without advancing the clock although a task is due "
+                             "inside its window" if st["idle_calls"] == st["calls"] else
+                             "no completion event after the bounded number of run_for calls", case,
+                             f"call {st['call']}: driver clock {st['clock']}, slice {st['slice']}: {st['calls']} run_for "
+                             f"calls ({st['idle_calls']} returned MaxCycles with cycles_executed == 0), clock afterwards "
+                             f"{st['clock_after']}, slice grown to {st['slice_after']}; the unchanged crate needs <= 3 calls"))
+        labels.append("host-loop-stall")
     for i, (s, a) in enumerate(zip(obs["sync"], obs["async"])):
         where = "AsyncRuntimeRunner::run_instructions" + \
                 (", later call on a reused runner" if (i > 0 and reused) else "") + \
